@@ -25,7 +25,7 @@ func init() {
 	})
 	register(&Prop{
 		ID: "C03", Level: "exploration",
-		Rule:        "seeded commit-focused histories (overlapping and disjoint write sets, several writes per key, deletes, conflicts made by autocommit writes and by other commits, conflicting transaction rolled back, empty transactions); every Commit/Rollback result class and a probe of ALL keys by the autocommit caller and all open transactions after every step are compared with the model (both directions of the iff); evaluations = commits+rollbacks+probes; distinct_nontrivial = distinct (level, outcome, number of writes) commit/rollback classes observed x histories",
+		Rule:        "seeded commit-focused histories on the inline client and (three of eight) through the gRPC server (overlapping and disjoint write sets, several writes per key through Set, SetReader and Create, deletes, conflicts made by autocommit writes and by other commits, conflicting transaction rolled back, empty transactions); every Commit/Rollback result class and a probe of ALL keys by the autocommit caller and all open transactions after every step are compared with the model (both directions of the iff); evaluations = commits+rollbacks+probes; distinct_nontrivial = distinct (level, outcome, number of writes) commit/rollback classes observed x histories",
 		Assumptions: []string{"reference model refmodel"},
 		Roles:       map[string]Role{"main": {N: func(t string) int { return tierN(t, 320, 20000) }, Case: c03Case}},
 	})
@@ -144,7 +144,7 @@ func c03Case(tier string, seed int64, idx int, scratch string) rt.CaseResult {
 	p := seqrun.Profile{
 		Steps: tierN(tier, 40, 80), Keys: keys, Lens: []int{12}, MaxOpen: 4, TxBias: 70,
 		TagPrefix: fmt.Sprintf("h%d-", idx),
-		W:         map[string]int{"begin": 14, "set": 30, "delete": 8, "commit": 16, "rollback": 6, "collect": 2, "getkeys": 1},
+		W:         map[string]int{"begin": 14, "set": 24, "create": 4, "setreader": 4, "delete": 8, "commit": 16, "rollback": 6, "collect": 2, "getkeys": 1},
 	}
 	switch idx % 4 {
 	case 1:
@@ -153,7 +153,11 @@ func c03Case(tier string, seed int64, idx int, scratch string) rt.CaseResult {
 		p.Levels = []int{0, 1} // never conflict
 	}
 	steps := seqrun.Generate(rng, p)
-	out := runSeq(&c, scratch, "h", dbx.Options{Mode: dbx.Inline, SendDuration: sendDur(idx)}, steps, seqrun.Options{Probe: true}, seed)
+	mode := dbx.Inline
+	if idx%8 >= 5 {
+		mode = dbx.Grpc // the same outcomes must reach a remote caller (three of eight histories)
+	}
+	out := runSeq(&c, scratch, "h", dbx.Options{Mode: mode, SendDuration: sendDur(idx)}, steps, seqrun.Options{Probe: true}, seed)
 	if r := out.Runner; r != nil {
 		var ends int64
 		for k, n := range r.Stats.OpClass {
